@@ -44,12 +44,12 @@ SPECS["C17"] = {
 }
 
 SPECS["C34"] = {
-    "parts": [{"engine": "m", "module": "c34"}],
+    "parts": [{"engine": "m", "module": "c34"}, {"engine": "m", "module": "c34file"}],
     "functions": ["dicom_parser::dataset::write::DataSetWriter::{write, write_impl} + StatefulEncoder + codecs over a failing writer", "dicom_ul::pdu::writer::write_pdu (A-ASSOCIATE-RQ arm, write_chunk_u16/u32) over a failing writer",
-                  "dicom_ul::association::read_pdu_from_wire + read_pdu over a failing transport"],
+                  "dicom_ul::association::read_pdu_from_wire + read_pdu over a failing transport", "dicom_object::FileDicomObject::write_dataset_impl over a buffered-sink contract"],
     "bounds": "failing call index k: any (8-bit symbolic; the streams make 10-25 calls) or none; failure kind for the data set writer: I/O error or zero-length write (Ok(0) from write, WriteZero from write_all); data set: one token stream of 13 tokens x {default, NoChange} x {ele} (thorough: ele, ile, ebe); PDU writer: A-ASSOCIATE-RQ with 1 context and 4 user items; "
-              "receiver: stream p1+rq in up to 3 reads of solver-chosen sizes with the failure at any read",
-    "outside": "whole files and the file meta group, the deflate data set adapter and its flushing, PDataWriter::finish on drop, zero-length writes in the PDU writer, partial writes, failures of flush(), asynchronous senders / receivers, other PDUs",
+              "receiver: stream p1+rq in up to 3 reads of solver-chosen sizes with the failure at any read; file level: 3 codec kinds x every Ok/Err outcome of with_ts, write_sequence and flush",
+    "outside": "whole files and the file meta group, the inside of the deflate data set adapter (file level: DataSetWriter::{with_ts, write_sequence, flush} are Ok/Err contracts over one abstract buffered sink), PDataWriter::finish on drop, zero-length writes in the PDU writer, partial writes, failures of flush(), asynchronous senders / receivers, other PDUs",
     "assumptions": ["the writer is a contract: every write_all / byteorder write is one call that either appends all its bytes or fails with an I/O error (a real io::Write may also write partially; write_all hides that)",
                     "the native replay uses a Write / Read implementation failing at the same call index; the call counts of the encoding and of the real code coincided on every replayed instance"],
 }
@@ -274,5 +274,5 @@ SPECS["C31"] = {
     "parts": [{"engine": "m", "module": "c31"}],
     "bounds": "2-3 (thorough 1-4) elements with symbolic tags in group 0000 or 0008 that may coincide, value lengths symbolic up to 64 KiB",
     "outside": "that PrimitiveValue::calculate_byte_len equals the number of bytes the encoder writes for each VR (value encoding is not part of this check); more than 4 elements; the real BTreeMap (a finite map with symbolic keys stands for it)",
-    "assumptions": ["elements are abstract: (tag, length reported by HasLength::length); contracts: BTreeMap collect/insert as a finite map keyed by tag, DataElement::{tag,value,new}, Length::is_defined"],
+    "assumptions": ["elements are abstract: (tag, byte length reported by the value's HasLength::length, declared length reported by the element's own HasLength::length - unconstrained); contracts: BTreeMap collect/insert as a finite map keyed by tag, DataElement::{tag,value,new}, Length::is_defined"],
 }
